@@ -190,7 +190,7 @@ def sample_values(label, rng, n):
     if label in ('bytes', 'bytearray'):
         out = [b'', b'\x00', b'\xff', b'\xce', b'AMQP', bytes(range(8)), b'\x00' * 4, b'\xff' * 9]
         out += [bytes(rng.randrange(256) for _ in range(rng.randrange(0, 24))) for _ in range(n)]
-        out += [b'\xce' * 131064, b'a' * 131065, b'AMQP' * 32768, b'b' * 200000]   # around the maximum frame size
+        out += [b'\xce' * 131065, b'AMQP' * 40000]   # beyond the maximum frame size
         return [bytearray(x) for x in out] if label == 'bytearray' else out
     if label == 'str':
         pool = ['', 'a', '0', 'ab c', 'é', '€uro', '\U0001F600', 'x' * 127, 'x' * 128, 'x' * 129, 'x' * 255,
@@ -228,6 +228,20 @@ def sample_values(label, rng, n):
     return []
 
 
+def _nominal(label, v):
+    if label == 'int':
+        return isinstance(v, int) and 0 <= v <= 255
+    if label in ('bytes', 'bytearray'):
+        return 0 < len(v) <= 24
+    if label == 'str':
+        return 0 < len(v) <= 12 and v.isascii()
+    if isinstance(v, dict) and '__obj__' in v:
+        return all(_nominal('int' if isinstance(x, int) and not isinstance(x, bool) else
+                            'bytes' if isinstance(x, (bytes, bytearray)) else 'str' if isinstance(x, str) else '?', x)
+                   or isinstance(x, (bool, type(None))) for x in v['attrs'].values())
+    return True
+
+
 def bounded_check(contract, rng, n=40, max_jobs=600):
     """Run-time check of the contract on generated inputs (labelled bounded).
     -> (evaluations, failures[list of dict])"""
@@ -245,7 +259,15 @@ def bounded_check(contract, rng, n=40, max_jobs=600):
             for v in pools[0]:
                 combos.append({contract.params[0][0]: v})
         else:
-            for _ in range(n * 3):
+            # every value of every pool once, the other arguments at nominal values; then random mixes
+            labels = [inst[0] for inst in insts]
+            noms = [[v for v in pool if _nominal(lab, v)] or pool[:3] for lab, pool in zip(labels, pools)]
+            for i, pool in enumerate(pools):
+                for v in pool:
+                    combo = {p[0]: rng.choice(nm) for p, nm in zip(contract.params, noms)}
+                    combo[contract.params[i][0]] = v
+                    combos.append(combo)
+            for _ in range(n):
                 combos.append({p[0]: rng.choice(pool) for p, pool in zip(contract.params, pools)})
     read_pools = []
     for (mod, var, spec) in contract.reads:
